@@ -726,7 +726,8 @@ def run(ctx):
     from ..report import Ctx as _LCtx
     from . import c18 as _c18
     _sub = _LCtx('C18', 'quick', ctx.src, 0)
-    _c18.run(_sub)
+    from ..report import run_lifted as _run_lifted
+    _run_lifted(ctx, _c18, _sub)
     _lifted = [f for f in _sub.findings if f.rule in ('C18.R5', 'C18.R6', 'C18.R7', 'C18.R8', 'C18.R9', 'C18.R10')]
     for f in _lifted:
         ctx.fail('C03.R12', f.key, f.site, f.message)
